@@ -44,9 +44,9 @@ Fixpoint dropN {A} (n : N) (l : list A) : list A :=
 Definition slice (b : bytes) (off len : N) : bytes := takeN len (dropN off b).
 
 (* ---------- configuration ---------- *)
+(* (the filer's -dirListLimit no longer matters: completeMultipartUpload lists with an explicit limit) *)
 Record cfg := {
-  c_limit : N;     (* filer -dirListLimit (FilerOption.DirListingLimit): 100000 for `weed filer`, 1000 for `weed server -filer` *)
-  c_inline : N;    (* filer -saveToFilerLimit (FilerOption.SaveToFilerLimit), default 0 *)
+  c_inline : N;   (* filer -saveToFilerLimit (FilerOption.SaveToFilerLimit), default 0 *)
   c_chunk : N      (* chunk size of the filer HTTP write path: 1024*1024*maxMB *)
 }.
 
@@ -228,16 +228,20 @@ Definition grpc_delete (s : store) (p : path) : store * bool :=
       end
   end.
 
-(* doDeleteEmptyDirectories, followed upwards from one directory: every successful
-   (or not-found) delete makes the parent the next candidate; the bucket directory stops it *)
+(* doDeleteEmptyDirectories, followed upwards from one directory: only an existing directory
+   is a candidate (s3a.exists(parentDir, dirName, true)); deleting it (not recursive, so only
+   when it is empty) makes its parent the next candidate; the bucket directory stops it *)
 Fixpoint purge_up (fuel : nat) (s : store) (d : path) : store :=
   match fuel with
   | O => s
   | S f =>
       match d with
       | [] => s
-      | _ :: _ => let (s', ok) := grpc_delete s d in
-                  if ok then purge_up f s' (parent d) else s'
+      | _ :: _ =>
+          match find s d with
+          | Some Dir => if has_children s d then s else purge_up f (remove s d) (parent d)
+          | _ => s                                            (* missing, or an object: skipped *)
+          end
       end
   end.
 
@@ -294,10 +298,17 @@ Fixpoint assemble (off : N) (es : updir) : list chunk :=
       else assemble off r
   end.
 
-(* the entries completeMultipartUpload sees: s3a.list(dir, "", "", false, 0) = the first -dirListLimit entries *)
-Definition listed (c : cfg) (d : updir) : updir := takeN (c_limit c) d.
-Definition completed_file (c : cfg) (d : updir) : file :=
-  {| f_inline := []; f_chunks := assemble 0 (listed c d) |}.
+(* the entries completeMultipartUpload sees: s3a.list(dir, "", "", false, globalMaxPartID+1) *)
+Definition listed (d : updir) : updir := takeN (max_part_id + 1) d.
+(* sort.SliceStable(entries, by strconv.Atoi(strings.TrimSuffix(name, ".part"))): stable insertion sort *)
+Fixpoint insert_by_number (e : list N * file) (l : updir) : updir :=
+  match l with
+  | [] => [e]
+  | x :: r => if part_number_of (fst x) <? part_number_of (fst e) then x :: insert_by_number e r else e :: l
+  end.
+Definition sort_by_number (l : updir) : updir := fold_right insert_by_number [] l.
+Definition completed_file (d : updir) : file :=
+  {| f_inline := []; f_chunks := assemble 0 (sort_by_number (listed d)) |}.
 
 Record upload := {
   u_key : path;               (* the key the client uses with this upload id *)
@@ -384,32 +395,25 @@ Definition fetch_range (s : store) (k : path) (r : option (N * N)) : option byte
 
 (* ---------- known-finding triggers raised while running (see props/C28.v) ---------- *)
 Definition in_range (lo hi n : N) : bool := (lo <=? n) && (n <=? hi).
-(* 0: a part numbered 10000 together with one in 1001..9999 *)
-Definition trig_order (nums : list N) : bool :=
-  existsb (N.eqb 10000) nums && existsb (in_range 1001 9999) nums.
-(* 1: more entries in the upload directory than the listing returns *)
-Definition trig_limit (c : cfg) (d : updir) : bool := c_limit c <? N.of_nat (length d).
-(* 2: a part stored inline (saveToFilerLimit > 0) *)
+(* 0: a part stored inline (saveToFilerLimit > 0) *)
 Definition is_inline (f : file) : bool := negb (blen (f_inline f) =? 0).
 Definition trig_inline (d : updir) : bool := existsb (fun e => is_inline (snd e)) d.
-(* 3: single DELETE of a key under which objects exist *)
+(* 1: single DELETE of a key under which objects exist *)
 Definition has_file_below (s : store) (k : path) : bool :=
   existsb (fun kv => is_proper_prefix k (fst kv) && negb (is_dir (snd kv))) s.
-(* 4: a write to a key that is a directory, or below a key that is a file *)
+(* 2: a write to a key that is a directory, or below a key that is a file; a copy whose source key
+   is a directory *)
 Definition file_ancestor (s : store) (k : path) : bool :=
   existsb (fun kv => is_proper_prefix (fst kv) k && negb (is_dir (snd kv))) s.
 Definition is_dir_at (s : store) (k : path) : bool :=
   match find_node s k with Some Dir => true | _ => false end.
 Definition trig_write (s : store) (k : path) : bool := is_dir_at s k || file_ancestor s k.
-(* 5: batch delete of a key below a file that the batch does not name *)
-Definition trig_batch (s : store) (ks : list path) : bool :=
-  existsb (fun k => existsb (fun kv => is_proper_prefix (fst kv) k && negb (is_dir (snd kv)) &&
-                                       negb (existsb (path_eqb (fst kv)) ks)) s) ks.
-(* 6: copy whose source is not an object *)
-Definition is_file_at (s : store) (k : path) : bool :=
-  match find_node s k with Some (File _) => true | _ => false end.
+(* 4: ListParts of an upload that holds part 10000 together with a part in 1001..9999
+   (the response follows the file names: "10000.part" sorts before "1001.part") *)
+Definition trig_order (nums : list N) : bool :=
+  existsb (N.eqb 10000) nums && existsb (in_range 1001 9999) nums.
 
-(* 8: a copy-source range that starts exactly at the end of the source: the filer's range parser
+(* 3: a copy-source range that starts exactly at the end of the source: the filer's range parser
    answers 206 with zero bytes (C32, finding 2) and an empty part is stored *)
 Definition range_at_end (s : store) (k : path) (r : option (N * N)) : bool :=
   match find_node s k, r with
@@ -423,7 +427,7 @@ Definition flag (k : N) (b : bool) : list N := if b then [k] else [].
 Definition put_obj (c : cfg) (st : state) (k : path) (b : bytes) : state * res * list N :=
   let s := st_store st in
   let (s', ok) := http_put s k (store_body c b) in
-  ({| st_store := s'; st_ups := st_ups st |}, if ok then ROk else RErr, flag 4 (trig_write s k)).
+  ({| st_store := s'; st_ups := st_ups st |}, if ok then ROk else RErr, flag 2 (trig_write s k)).
 
 Definition put_part (c : cfg) (st : state) (u n : N) (b : bytes) : state * res * list N :=
   match get_upload st u with
@@ -443,12 +447,16 @@ Definition step (c : cfg) (st : state) (o : op) : state * res * list N :=
   | PutS k b tampered => if tampered then (st, RErr, []) else put_obj c st k b
   | Copy src dst =>
       if path_eqb src dst then (st, RErr, [])                 (* ErrInvalidCopyDest *)
-      else let (s', ok) := http_put s dst (store_body c (fetch_any s src)) in
-           ({| st_store := s'; st_ups := st_ups st |}, if ok then ROk else RErr,
-            flag 4 (trig_write s dst) ++ flag 6 (negb (is_file_at s src)))
+      else match find_node s src with
+           | None => (st, RErr, [])                            (* the source GET answers 404: ErrInvalidCopySource *)
+           | Some _ =>
+               let (s', ok) := http_put s dst (store_body c (fetch_any s src)) in
+               ({| st_store := s'; st_ups := st_ups st |}, if ok then ROk else RErr,
+                flag 2 (trig_write s dst) ++ flag 2 (is_dir_at s src))
+           end
   | Get k r => (st, get_obj s k r, [])
-  | Del k => ({| st_store := delete_recursive s k; st_ups := st_ups st |}, ROk, flag 3 (has_file_below s k))
-  | BatchDel ks => ({| st_store := batch_delete s ks; st_ups := st_ups st |}, ROk, flag 5 (trig_batch s ks))
+  | Del k => ({| st_store := delete_recursive s k; st_ups := st_ups st |}, ROk, flag 1 (has_file_below s k))
+  | BatchDel ks => ({| st_store := batch_delete s ks; st_ups := st_ups st |}, ROk, [])
   | MpCreate k => ({| st_store := s; st_ups := st_ups st ++ [{| u_key := k; u_dir := Some [] |}] |}, ROk, [])
   | MpPut u n b => put_part c st u n b
   | MpPutS u n b tampered =>
@@ -462,18 +470,19 @@ Definition step (c : cfg) (st : state) (o : op) : state * res * list N :=
       end
   | MpCopy u n src r =>
       match get_upload st u with
-      | None => (st, RErr, [])
+      | None => (st, RNoUpload, [])
       | Some up =>
-          if max_part_id <? n then (st, RErr, [])
-          else match fetch_range s src r with
-               | None => (st, RErr, [])                       (* ErrInvalidCopySource *)
-               | Some data =>
-                   (* no check that the upload exists: the part file (and its directory) is simply written *)
-                   let d := match u_dir up with Some d => d | None => [] end in
-                   (set_updir st u up (Some (dir_put (part_name n) (store_body c data) d)), ROk,
-                    flag 6 (is_dir_at s src) ++ flag 7 (match u_dir up with None => true | Some _ => false end) ++
-                    flag 8 (range_at_end s src r))
-               end
+          match u_dir up with
+          | None => (st, RNoUpload, [])                        (* the upload must exist, as for PutObjectPart *)
+          | Some d =>
+              if max_part_id <? n then (st, RErr, [])
+              else match fetch_range s src r with
+                   | None => (st, RErr, [])                   (* ErrInvalidCopySource *)
+                   | Some data =>
+                       (set_updir st u up (Some (dir_put (part_name n) (store_body c data) d)), ROk,
+                        flag 2 (is_dir_at s src) ++ flag 3 (range_at_end s src r))
+                   end
+          end
       end
   | MpComplete u =>
       match get_upload st u with
@@ -482,13 +491,11 @@ Definition step (c : cfg) (st : state) (o : op) : state * res * list N :=
           match u_dir up with
           | None => (st, RNoUpload, [])
           | Some d =>
-              match listed c d with
+              match listed d with
               | [] => (st, RNoUpload, [])                      (* len(entries) == 0 *)
               | _ :: _ =>
-                  let fl := flag 0 (trig_order (map (fun e => part_number_of (fst e)) d)) ++
-                            flag 1 (trig_limit c d) ++ flag 2 (trig_inline d) ++
-                            flag 4 (trig_write s (u_key up)) in
-                  let (s', ok) := create_entry s (u_key up) (File (completed_file c d)) in
+                  let fl := flag 0 (trig_inline d) ++ flag 2 (trig_write s (u_key up)) in
+                  let (s', ok) := create_entry s (u_key up) (File (completed_file d)) in
                   if ok then (set_updir {| st_store := s'; st_ups := st_ups st |} u up None, ROk, fl)
                   else (st, RErr, fl)
               end
@@ -508,7 +515,7 @@ Definition step (c : cfg) (st : state) (o : op) : state * res * list N :=
           let es := takeN max_parts_list (filter (fun e => lex_ltb (part_name 0) (fst e)) d) in
           (st, RParts (map (fun e => (part_number_of (fst e), file_size (snd e)))
                            (filter (fun e => has_part_suffix (fst e)) es)),
-           flag 0 (trig_order (map (fun e => part_number_of (fst e)) d)))
+           flag 4 (trig_order (map (fun e => part_number_of (fst e)) d)))
       end
   end.
 
